@@ -3,7 +3,7 @@ import random
 import struct
 import collections
 
-from checks.common import UdpCheck, Monitor, swarm_cfg, limits
+from checks.common import UdpCheck, Monitor, swarm_cfg, limits, QueueConservation
 from world.attacker import Attacker
 from world.udpworld import SERVER_ADDR, client_addr, ConnectionStatus, server_mod
 from world import refmodel as R
@@ -112,7 +112,8 @@ class C11(UdpCheck):
     def monitors(self, case):
         self.mon = HostileMonitor()
         self.mon.blocklist = set(case["cfg"]["server"].get("blocklist") or ())
-        return [self.mon]
+        self.qc = QueueConservation()
+        return [self.mon, self.qc]
 
     def prepare(self, w, case):
         Attacker(w)
@@ -241,6 +242,7 @@ class C11(UdpCheck):
         for t, kind, cid, th, extra in w.hev:
             if kind == "disconnect":
                 vs.append({"kind": "honest_client_disconnected_by_server", "key": entry, "detail": {"t": t, "addr": extra}})
+        vs += self.qc.judge(w, 3 * max(cfg["server"]["interval"], 1 / 60) + cfg["reactor_lag"] + cfg.get("wake_lag", 0) + 0.02)
         w.maxima["temp_pool_size"] = mon.temp_pool_max
         w.probes["hostile_datagrams_at_server_socket"] += sum(w.injections.values())
         return vs
